@@ -89,12 +89,12 @@ def run(ctx):
         _, more = bp.order_run(ctx, "c11_o3", NS=3, NI=3, max_edges=5, tmax=3, emit=True)
         dags += more
     _, insts = bp.io_run(ctx, "c11_io", NS=4, NI=3, G=2, vals=(0, 1, 2), perms="all", mode="hash",
-                         seeds=range(1, 7 if q else 120), canon=q, min_kids=2, emit=True)
+                         seeds=range(1, 7 if q else 300), canon=q, min_kids=2, emit=True)
     bp.max_run(ctx, "c11_m", NS=2, NI=3, G=2, mult=1, max_edges=2 if q else 3, ins=(0, 1), lik=(1, 2))
     bp.tick(ctx, "tlc")
     bp.tsd()
     bp.tick(ctx, "import_tsdate")
-    cap = 1500 if q else 12000
+    cap = 1500 if q else 30000
     ctx.exhaustive = len(dags) <= cap
     if len(dags) > cap:
         dags = ctx.rng.sample(dags, cap)
@@ -105,7 +105,7 @@ def run(ctx):
             ctx.nontriv(("dag", str(d["edges"]), str(d["perm"]), str(d["time"])))
     bp.tick(ctx, "replay_orders")
     proper = [i for i in insts if i["status"] == "done" and i["perm"] != sorted(i["perm"])]
-    cap = 500 if q else 5000
+    cap = 500 if q else 20000
     if len(proper) > cap:
         proper = ctx.rng.sample(proper, cap)
     for inst in proper:
@@ -116,7 +116,7 @@ def run(ctx):
             ctx.traces += 1
             ctx.nontriv(bp.io_key(inst))
     bp.tick(ctx, "replay_doubles")
-    inputs = bp.sparse_corpus(ctx, 4 if q else 60) + bp.corpus(ctx, 3 if q else 24, 1 if q else 6, small=q)
+    inputs = bp.sparse_corpus(ctx, 10 if q else 150) + bp.corpus(ctx, 4 if q else 40, 1 if q else 8, small=q)
     for k, inp in enumerate(inputs):
         for method in ("inside_outside", "maximization"):
             pairs(ctx, inp.name, inp.ts, inp.mu, inp.Ne, method, bp.SPACES[(k + 1) % 2], ctx.seed + k)
